@@ -71,9 +71,19 @@ type Profile struct {
 	LeafIO bool
 	// Extra adds lock-taking calls that are irrelevant for the model
 	// (InstallHooks, VirtualApply, VirtualSetAttributes).
-	Extra    bool
-	MaxDirs  int
-	MaxNames int
+	Extra bool
+	// KernelOnly restricts the generator to the kernel-facing calls a
+	// protocol front end (FUSE, NFSv4) can issue.
+	KernelOnly bool
+	// NoBadTargets: symbolic link targets a kernel cannot send (NUL
+	// bytes) are not generated.
+	NoBadTargets bool
+	// UniqueTargets gives every symbolic link its own target. Needed
+	// where equal targets mean equal inode numbers but distinct objects
+	// (FUSE handle allocator seen through node IDs).
+	UniqueTargets bool
+	MaxDirs       int
+	MaxNames      int
 }
 
 // Gen generates operations against the current state of the model.
@@ -182,6 +192,10 @@ func (g *Gen) boundLeaves() (live, stale []*Node) {
 }
 
 func (g *Gen) newTarget() string {
+	if g.P.UniqueTargets {
+		g.tgt++
+		return fmt.Sprintf("unique-target-%d", g.tgt)
+	}
 	// A small set of targets, so that equal targets (one shared node under
 	// the NFS handle allocator) are frequent.
 	return fmt.Sprintf("target%d", g.R.IntN(4))
@@ -243,7 +257,15 @@ func (g *Gen) Next() Op {
 		{1, g.genFilter},
 		{3, g.genGetAttr},
 	}
-	if tooManyDirs {
+	if g.P.KernelOnly {
+		table = []weighted{
+			{10, g.genOpen}, {8, g.genMkdir}, {6, g.genMknod}, {7, g.genLink}, {16, g.genRename},
+			{12, g.genRemove}, {8, g.genLookup}, {14, g.genReadDir}, {3, g.genGetAttr},
+		}
+		if tooManyDirs {
+			table = append(table, weighted{10, g.genRemove})
+		}
+	} else if tooManyDirs {
 		table = append(table, weighted{8, g.genRemove}, weighted{4, g.genRemoveAll})
 	}
 	if g.P.LeafIO {
@@ -303,7 +325,7 @@ func (g *Gen) genMknod() (Op, bool) {
 	op.Kind = []Kind{KFIFO, KSocket, KSymlink, KSymlink, KBlock, KFile}[g.R.IntN(6)]
 	if op.Kind == KSymlink {
 		op.Target = g.newTarget()
-		if g.chance(map[bool]float64{false: 0.05, true: 0.3}[g.P.Faults]) {
+		if !g.P.NoBadTargets && g.chance(map[bool]float64{false: 0.05, true: 0.3}[g.P.Faults]) {
 			op.BadTarget = true
 			op.Target = "bad\x00target"
 			if n, ok := g.unusedName(d); ok {
